@@ -3,12 +3,27 @@
 
 use crate::report::{Ctx, Report};
 
+pub mod c08;
+pub mod c09;
+pub mod c10;
 pub mod c12;
+pub mod c13;
+pub mod c16;
+pub mod c28;
 
 pub type MonFn = fn(&Ctx) -> Report;
 
 pub fn registry() -> Vec<(&'static str, MonFn)> {
-    vec![("c12", c12::run as MonFn)]
+    vec![
+        ("c08", c08::run as MonFn),
+        ("c09", c09::run as MonFn),
+        ("c10", c10::run as MonFn),
+        ("c12", c12::run as MonFn),
+        ("c13", c13::run as MonFn),
+        ("c28", c28::run as MonFn),
+        ("c16k", c16::run_k as MonFn),
+        ("c16d", c16::run_d as MonFn),
+    ]
 }
 
 pub fn find(name: &str) -> Option<MonFn> {
